@@ -269,32 +269,32 @@ theorem unescapeString_spec (escaped : Bytes) (fuel : Nat) (hf : escaped.length 
 
 -- "aBc" ↦ "a!bc"
 example : Generated.Module.escapeString 4 [97, 66, 99] = .ok ([97, 33, 98, 99], none) ∧
-    Module.escapeString [97, 66, 99] = some [97, 33, 98, 99] := ⟨rfl, rfl⟩
+    Module.escapeString [97, 66, 99] = some [97, 33, 98, 99] := by decide +kernel
 -- no upper-case letter: the string itself
 example : Generated.Module.escapeString 4 [97, 98, 99] = .ok ([97, 98, 99], none) ∧
-    Module.escapeString [97, 98, 99] = some [97, 98, 99] := ⟨rfl, rfl⟩
+    Module.escapeString [97, 98, 99] = some [97, 98, 99] := by decide +kernel
 -- "!" ↦ the internal error
 example : Generated.Module.escapeString 2 [33] = .ok ([], some "internal error: inconsistency in EscapePath") ∧
-    Module.escapeString [33] = none := ⟨rfl, rfl⟩
+    Module.escapeString [33] = none := by decide +kernel
 -- "é" (two bytes) and the ill-formed byte 0xFF (decoded as U+FFFD) ↦ the internal error
 example : Generated.Module.escapeString 3 [195, 169] = .ok ([], some "internal error: inconsistency in EscapePath") ∧
     Module.escapeString [195, 169] = none ∧
     Generated.Module.escapeString 2 [255] = .ok ([], some "internal error: inconsistency in EscapePath") ∧
-    Module.escapeString [255] = none := ⟨rfl, rfl, rfl, rfl⟩
+    Module.escapeString [255] = none := by decide +kernel
 -- too little fuel is an error, not a wrong answer
-example : Generated.Module.escapeString 3 [97, 66, 99] = .error .fuel := rfl
+example : Generated.Module.escapeString 3 [97, 66, 99] = .error .fuel := by decide +kernel
 
 -- "a!bc" ↦ "aBc"
 example : Generated.Module.unescapeString 5 [97, 33, 98, 99] = .ok ([97, 66, 99], true) ∧
-    Module.unescapeString [97, 33, 98, 99] = some [97, 66, 99] := ⟨rfl, rfl⟩
+    Module.unescapeString [97, 33, 98, 99] = some [97, 66, 99] := by decide +kernel
 -- a trailing "!", an upper-case letter, "!" before a non-letter, a non-ASCII rune, an ill-formed byte: not ok
 example : Generated.Module.unescapeString 2 [33] = .ok ([], false) ∧ Module.unescapeString [33] = none ∧
     Generated.Module.unescapeString 2 [66] = .ok ([], false) ∧ Module.unescapeString [66] = none ∧
     Generated.Module.unescapeString 3 [33, 49] = .ok ([], false) ∧ Module.unescapeString [33, 49] = none ∧
     Generated.Module.unescapeString 3 [195, 169] = .ok ([], false) ∧ Module.unescapeString [195, 169] = none ∧
-    Generated.Module.unescapeString 2 [255] = .ok ([], false) ∧ Module.unescapeString [255] = none :=
-  ⟨rfl, rfl, rfl, rfl, rfl, rfl, rfl, rfl, rfl, rfl⟩
+    Generated.Module.unescapeString 2 [255] = .ok ([], false) ∧ Module.unescapeString [255] = none := by
+  decide +kernel
 example : Generated.Module.unescapeString 0 [] = .error .fuel ∧
-    Generated.Module.unescapeString 1 [] = .ok ([], true) ∧ Module.unescapeString [] = some [] := ⟨rfl, rfl, rfl⟩
+    Generated.Module.unescapeString 1 [] = .ok ([], true) ∧ Module.unescapeString [] = some [] := by decide +kernel
 
 end ModVerif.TieFnModule
